@@ -613,7 +613,23 @@ class Rope:
                     continue
                 ps.pop(0 if left else -1)
                 continue
-            raise Unsupported('strip reaching a %s piece' % type(p).__name__)
+            base = p.base if isinstance(p, Frag) else p
+            if isinstance(base, Num):
+                digs = '0123456789'
+                try:
+                    enc = digs
+                    for op, c in base.chain + (getattr(p, 'chain', ()) if isinstance(p, Frag) else ()):
+                        enc = enc.encode(c) if op == 'e' else enc.decode(c)
+                    dvals = [ord(x) for x in enc] if isinstance(enc, str) else list(enc)
+                except Exception:
+                    dvals = None
+                if dvals is not None and not (set(dvals) & set(vals)):
+                    break                       # a numeral never starts / ends with a strip character
+            if isinstance(base, U32) and not isinstance(p, Frag) and base.fmt in ('>I', '!I'):
+                edge = (base.n // (256 ** 3)) % 256 if left else base.n % 256
+                if not s_or(*[s_eq(edge, v) for v in vals]):     # forks on the value of the edge byte
+                    break
+            raise Unsupported('strip reaching a %s piece' % type(base).__name__)
         return norm(self.kind, ps)
 
     def rstrip(self, chars=None):
